@@ -216,7 +216,11 @@ def run(tier, seed):
     V.write_evidence('C02', tier, seed, coverage, time.time() - t0, len(ver.violations),
                      assumptions=['reference pmfs: exact rationals (small), scipy/mpmath closed forms, Edgeworth expansion for sigma > 1e3 (validated against exact sums in reflaw.selftest)',
                                   'statistical part resolves ~1e-3 (quick) / 3e-5 (thorough) absolute per statistic'])
-    if missing or cov['cases_judged'] < 0.9 * len(cs) or xcov['exact_cases'] < 100:
+    # variant names are read off Debug renderings: a renamed internal variant must not break the check, so a missing
+    # name is reported in the evidence (and on stderr) but is not fatal; observing too few cases is
+    if missing:
+        V.log('note: expected variant names not seen in Debug output:', missing)
+    if cov['cases_judged'] < 0.9 * len(cs) or xcov['exact_cases'] < 100:
         V.log('coverage floor not met', missing, cov['cases_judged'], len(cs), xcov['exact_cases'], cov['oracle_inconclusive'][:5])
         return 2
     return rc
